@@ -201,7 +201,7 @@ def discharge(obligations, timeout_ms=20000, workers=None, vacuity=True):
     todo = []
     for ob in obligations:
         if ob.verdict is None:
-            todo.append((ob, vc_smt2(ob.pc, ob.goal)))
+            todo.append((ob, getattr(ob, "smt2_pre", None) or vc_smt2(ob.pc, ob.goal)))
     if not todo:
         return
     workers = workers or min(16, max(1, os.cpu_count() or 1))
